@@ -245,6 +245,33 @@ harnesses! {
         }
     }
 
+    /// `TryFrom<AnyRef> for Uint` (an ANY-typed field holding an INTEGER): content 0..=10 symbolic octets, tag INTEGER or
+    /// OCTET STRING / BIT STRING / SEQUENCE; Ok exactly for tag INTEGER with canonical, non-negative, fitting content
+    #[kani::unwind(12)]
+    fn c18_der_anyref_u64(s) {
+        let buf: [u8; 10] = s.bytes();
+        let len = s.usize();
+        s.assume(len <= 10);
+        let t = s.u8();
+        s.assume(t <= 3);
+        let tag = match t { 0 => der::Tag::Integer, 1 => der::Tag::OctetString, 2 => der::Tag::BitString, _ => der::Tag::Sequence };
+        let any = match der::asn1::AnyRef::new(tag, &buf[..len]) { Ok(a) => a, Err(_) => { assert!(false); return; } };
+        let res = U64::try_from(any);
+        let mut tlv = [0u8; 12];
+        tlv[0] = 0x02;
+        tlv[1] = len as u8;
+        let mut i = 0;
+        while i < 10 { tlv[2 + i] = buf[i]; i += 1; }
+        let expect = if t == 0 { der_uint_ref(&tlv[..2 + len], 8) } else { None };
+        match expect {
+            Some(v) => {
+                s.cover(len == 9);
+                match res { Ok(x) => assert!(u64_of(&x) as u128 == v), Err(_) => assert!(false, "canonical INTEGER rejected") }
+            }
+            None => assert!(res.is_err()),
+        }
+    }
+
     /// crypto-bigint's `EncodeValue` for U64 (`value_len`, `encode_value` into a `der::SliceWriter`): for every value the
     /// content octets are the canonical INTEGER content: minimal big-endian magnitude, preceded by 0x00 exactly when
     /// its top bit is set (never negative, never a superfluous leading octet)
